@@ -137,9 +137,20 @@ func runC08(r *Run, p *Prog) {
 					return true
 				}
 				okCond := false
-				if be, ok := ifs.Cond.(*ast.BinaryExpr); ok && be.Op.String() == "==" {
+				cond := ifs.Cond
+				elseOK := ifs.Else == nil
+				if land, ok := cond.(*ast.BinaryExpr); ok && land.Op == token.LAND {
+					// `if tags && <field>.Type.Kind == TypeMaybe { tag with omitempty } else if tags { plain tag }`
+					if id, ok := land.X.(*ast.Ident); ok && info.Uses[id] == flag {
+						cond = land.Y
+						if ei, ok := ifs.Else.(*ast.IfStmt); ok && hasOmit(ei) == 0 {
+							elseOK = true
+						}
+					}
+				}
+				if be, ok := cond.(*ast.BinaryExpr); ok && be.Op.String() == "==" {
 					l, rr := types.ExprString(be.X), types.ExprString(be.Y)
-					if strings.HasSuffix(l, ".Type.Kind") && strings.HasSuffix(rr, "TypeMaybe") && ifs.Else == nil {
+					if strings.HasSuffix(l, ".Type.Kind") && strings.HasSuffix(rr, "TypeMaybe") && elseOK {
 						okCond = true
 					}
 				}
@@ -185,17 +196,47 @@ func runC08(r *Run, p *Prog) {
 							continue
 						}
 						isTW, flagArg := typeWriterCall(w, tw, flag, call, 0)
-						if !isTW || i == 0 {
-							continue
-						}
-						prev := lastConstOf(info, list[i-1])
-						prevAll := strings.Join(constParts(info, writeArg(list[i-1])), "")
-						if es, ok := list[i-1].(*ast.ExprStmt); ok {
-							if t, ok := w.StmtText[es]; ok {
-								prevAll = t
+						prev, prevAll := "", ""
+						if !isTW {
+							// the type is spliced into the written expression: `"var ", name, " ", goType(t, true, n)`
+							b4, _, inExpr := typeWriterCallContext(w, tw, x)
+							if !inExpr {
+								continue
+							}
+							var inner *ast.CallExpr
+							ast.Inspect(x, func(y ast.Node) bool {
+								if c2, ok := y.(*ast.CallExpr); ok && inner == nil && c2 != call {
+									if is, fa := typeWriterCall(w, tw, flag, c2, 0); is {
+										inner, flagArg = c2, fa
+									}
+								}
+								return inner == nil
+							})
+							if inner == nil {
+								continue
+							}
+							call = inner
+							prev = b4
+							prevAll = strings.Join(constParts(info, writeArg(x)), "")
+							if prev == "" {
+								// the text before is a splice (a declared name): look at the whole written text
+								prev = " "
+							}
+						} else {
+							if i == 0 {
+								continue
+							}
+							prev = lastConstOf(info, list[i-1])
+							prevAll = strings.Join(constParts(info, writeArg(list[i-1])), "")
+							if es, ok := list[i-1].(*ast.ExprStmt); ok {
+								if t, ok := w.StmtText[es]; ok {
+									prevAll = t
+								}
 							}
 						}
-						isDecl := strings.HasSuffix(prev, "var in ") || strings.HasSuffix(prev, "var out ") || (strings.HasPrefix(prevAll, "type ") && strings.HasSuffix(prev, " "))
+						isDecl := strings.HasSuffix(prev, "var in ") || strings.HasSuffix(prev, "var out ") || (strings.HasPrefix(prevAll, "type ") && strings.HasSuffix(prev, " ")) ||
+							// a declaration helper: `var <name> <type>` with the name a parameter
+							strings.HasSuffix(strings.TrimLeft(prevAll, "\x00\t"), "var \x00 ")
 						if !isDecl {
 							continue
 						}
@@ -214,7 +255,7 @@ func runC08(r *Run, p *Prog) {
 			}
 			walk(fd.Body.List)
 		}
-		if n < 4 {
+		if n < 2 {
 			r.Ob("B2", "-", "(de)serialised declarations are found", tw.Pos(), false, fmt.Sprintf("%d `var in/out` / `type` declarations using the type writer", n))
 		}
 	})
